@@ -866,9 +866,14 @@ def run(chk):
                 "equal volume, operands of += / -= with equal dims and compatible batch, value lists of the right length, |values| <= 2^20 so that "
                 "float32 arithmetic is exact); one history in five is the malformed stream (half of its operations use dropped / moved-from / "
                 "invalidated objects, mismatched shapes, incompatible batches, wrong value counts, shapes the constructor rejects). "
+                "40% of the steps come from the second group: the public Device entry points called directly (inplace_add/subtract/"
+                "multiply_const, slice_bw, pick_bw, flip_bw, transpose_bw, add_bw/subtract_bw with ga and gb copies of one tensor, "
+                "Parameter gradient +=) on targets that are preferably sharers of a buffer, primitiv::functions of one operand (copy, positive, "
+                "concat({&h}), batch::concat({&h}), sum, h+h, matmul, batch::sum, to_float, argmax) on valid and on invalid objects, and scripted "
+                "move-assignments between objects that share one buffer (c=copy(a);a=move(c) / v=flatten(a);a=move(v) / moved->reshape->copy->move back). "
                 "Every mutating operation is followed by `readall` (shape and to_vector() of every live object, parameters included). "
                 "Each history runs on devices::Naive and on devices::Eigen; the expected answer of every line comes from the pure-value oracle in "
-                "props/C07.py. thorough adds all histories of <= 4 operations over 3 objects and a 43-letter alphabet (new/copy/move/reshape/+=/*=/"
+                "props/C07.py. thorough adds all histories of <= 4 operations over 3 objects and a 49-letter alphabet (new/copy/move/reshape/+=/Device::inplace_add/*=/"
                 "invalidate/drop). Non-trivial = the implementation accepted the operation (answer starts with ok); distinct = distinct lines.")
     chk.obligations(MODS, drivers=[FAMILY])
     exe = build.build_harness(HARNESS)
@@ -914,17 +919,20 @@ def run(chk):
         return out[1:]
 
     reported = 0
+    kinds = set()
     for (lines, impl, model), (dev, spans) in zip(seen, index):
         for (a, b) in spans:
             h = lines[a:b]
             v = first_violation(h, impl[a:b])
             if v is None:
                 continue
-            if reported >= 5:
-                continue
-            reported += 1
             i, e, o = v
             cls = classify(h[i], e, o)
+            # one replay per kind of failure (class, operation, device), at most 6 in all
+            if reported >= 6 or (cls, h[i].split()[0], dev) in kinds:
+                continue
+            kinds.add((cls, h[i].split()[0], dev))
+            reported += 1
             hh = h[:i + 1]
 
             def still(c):
@@ -973,7 +981,11 @@ def run(chk):
         "the harness devices override the private virtual new_handle (same malloc/free body plus a live-buffer counter)",
         "node values cached in a Graph and optimizer updates are not part of this family (C05/C06/C12 cover the graph and optimizer state)",
     ]
-    chk.assumptions += ["element values are integers of magnitude <= 2^20, so float32 addition, subtraction and multiplication are exact"]
+    chk.assumptions += [
+        "the backward kernels (slice_bw, pick_bw, flip_bw, transpose_bw, add_bw, subtract_bw) are only issued with pairwise different objects "
+        "as operands (the protocol answers `alias` otherwise): with one object as source and target the result of the C++ loop depends on "
+        "whether the buffer happens to be shared, which no value semantics can specify",
+        "concat / batch::concat of a single tensor keep the element count (shape algebra, C09); the model is total through `fitTo`","element values are integers of magnitude <= 2^20, so float32 addition, subtraction and multiplication are exact"]
 
 
 def replay(path):
